@@ -309,11 +309,15 @@ func (p *wat2cWorker) buildFunc_ins(w io.Writer, fn *ast.Func, stk *valueTypeSta
 
 			// 如果返回值位置和目标block的base不一致则需要逐个复制
 			if firstResultOffset > destScopeStackBase {
-				// 返回值是逆序出栈
+				// 返回值是逆序出栈, 但必须按升序复制: 目标寄存器在源寄存器下方, 降序复制会相互覆盖
 				fmt.Fprintf(w, "%s// copy br %s result\n", indent, labelName)
+				retIdxList := make([]int, len(destScopeResults))
 				for i := len(destScopeResults) - 1; i >= 0; i-- {
+					retIdxList[i] = stk.Pop(destScopeResults[i])
+				}
+				for i := 0; i < len(destScopeResults); i++ {
 					xType := destScopeResults[i]
-					reti := stk.Pop(xType)
+					reti := retIdxList[i]
 					switch xType {
 					case token.I32:
 						fmt.Fprintf(w, "%sR%d.i32 = R%d.i32;\n", indent, destScopeStackBase+i, reti)
